@@ -11,7 +11,6 @@ def authRejects : List String := [
   "!isECDSA",
   "err != nil",
   "!ecdsa.VerifyASN1(pk, sha256Digest(signedBytes), sig)",
-  "NOT-REJECTING: !exists",
   "!exists"
 ]
 def authSignedBytes : String := "signedBytes, err := asn1.Marshal(h)"
